@@ -82,10 +82,12 @@ def outcomeStr : Outcome → String
   | .fresh _ => "fresh"
   | .stored _ => "stored"
   | .compiled => "compiled"
+  | .panic => "panic"
 
 def kindStr : Outcome → String
   | .ok => ""
   | .compiled => "compiled"
+  | .panic => "panic"
   | .fresh k | .stored k => ((reprStr k).splitOn ".").getLast!
 
 end EinoV.Oracle.C20Parse
